@@ -19,7 +19,7 @@ package main
 //	id <g> <time> <tick> <meta> <part> <seq>  a decoded sno id, in draw order
 //	snap <g> <now> <wallHi> <seq> <part> <seqMin> <seqMax> <wallSafe> <drifts>
 //	restore <g> <g2>                          g2 := generator restored from the last snapshot of g; g is retired
-//	fgen <g> / fid <g> <prefix> <n> / fsnap <g> <prefix> <counter> / fraw <g> <string>
+//	fgen <g> / fid <g> <clock> <serial|-> <n> / fsnap <g> <clock> <serial|-> <counter> / fraw <g> <string>
 //	stress <what> goroutines <G> each <N> gens <k> total <n> dups <d> first <id|-> [extra k=v …]
 //	inst <hex> / flow <hex>                   ids seen in engine traces (InstantiationTrace / NewFlowTrace)
 //	run <i> done <0|1> traces <n>
@@ -356,25 +356,81 @@ func c20snoConc(out *rec.Out, G, N, ngen int, stats map[string]int) {
 
 // ---------------------------------------------------------------- fallback generator
 
-func c20fbDecode(s string) (prefix uint64, n uint64, ok bool) {
+// c20fp is a decoded fallback prefix: `<clock base 36>` (serial = -1) or `<clock base 36>.<serial base 36>`.
+type c20fp struct {
+	clock  uint64
+	serial int64
+}
+
+func (p c20fp) String() string {
+	if p.serial < 0 {
+		return strconv.FormatUint(p.clock, 36)
+	}
+	return strconv.FormatUint(p.clock, 36) + "." + strconv.FormatUint(uint64(p.serial), 36)
+}
+
+// tok renders the prefix as the two line tokens `<clock> <serial|->`
+func (p c20fp) tok() string {
+	if p.serial < 0 {
+		return fmt.Sprintf("%d -", p.clock)
+	}
+	return fmt.Sprintf("%d %d", p.clock, p.serial)
+}
+
+func c20fpCmp(a, b c20fp) int {
+	if a.clock != b.clock {
+		if a.clock < b.clock {
+			return -1
+		}
+		return 1
+	}
+	if a.serial != b.serial {
+		if a.serial < b.serial {
+			return -1
+		}
+		return 1
+	}
+	return 0
+}
+
+func c20fbPrefix(s string) (c20fp, bool) {
+	p := c20fp{serial: -1}
+	cs := s
+	if i := strings.IndexByte(s, '.'); i >= 0 {
+		cs = s[:i]
+		v, err := strconv.ParseUint(s[i+1:], 36, 63)
+		if err != nil {
+			return p, false
+		}
+		p.serial = int64(v)
+	}
+	c, err := strconv.ParseInt(cs, 36, 64)
+	if err != nil || c < 0 {
+		return p, false
+	}
+	p.clock = uint64(c)
+	// the decoding must be exact: re-encode and compare
+	return p, p.String() == s
+}
+
+func c20fbDecode(s string) (prefix c20fp, n uint64, ok bool) {
 	if !strings.HasPrefix(s, "fallback-") {
-		return 0, 0, false
+		return c20fp{}, 0, false
 	}
 	rest := s[len("fallback-"):]
 	i := strings.IndexByte(rest, '-')
 	if i < 0 {
-		return 0, 0, false
+		return c20fp{}, 0, false
 	}
-	p, err1 := strconv.ParseInt(rest[:i], 36, 64)
+	p, okp := c20fbPrefix(rest[:i])
 	c, err2 := strconv.ParseUint(rest[i+1:], 10, 64)
-	if err1 != nil || err2 != nil || p < 0 {
-		return 0, 0, false
+	if !okp || err2 != nil {
+		return c20fp{}, 0, false
 	}
-	// the decoding must be exact: re-encode and compare
-	if "fallback-"+strconv.FormatInt(p, 36)+"-"+strconv.FormatUint(c, 10) != s {
-		return 0, 0, false
+	if "fallback-"+p.String()+"-"+strconv.FormatUint(c, 10) != s {
+		return c20fp{}, 0, false
 	}
-	return uint64(p), c, true
+	return p, c, true
 }
 
 func c20fbSingle(out *rec.Out, rng *rec.Rng, ngen, ndraws int, stats map[string]int) {
@@ -394,7 +450,7 @@ func c20fbSingle(out *rec.Out, rng *rec.Rng, ngen, ndraws int, stats map[string]
 				out.Line("fraw %d bytes_differ_from_string", g)
 			}
 			if p, n, ok := c20fbDecode(s); ok {
-				out.Line("fid %d %d %d", g, p, n)
+				out.Line("fid %d %s %d", g, p.tok(), n)
 			} else {
 				out.Line("fraw %d %s", g, strings.ReplaceAll(s, " ", "_"))
 			}
@@ -406,10 +462,10 @@ func c20fbSingle(out *rec.Out, rng *rec.Rng, ngen, ndraws int, stats map[string]
 				}
 				if err != nil || json.Unmarshal(b, &m) != nil {
 					out.Line("fraw %d snapshot_unreadable", g)
-				} else if p, err := strconv.ParseInt(m.Prefix, 36, 64); err != nil {
+				} else if p, ok := c20fbPrefix(m.Prefix); !ok {
 					out.Line("fraw %d snapshot_prefix", g)
 				} else {
-					out.Line("fsnap %d %d %d", g, p, m.Counter)
+					out.Line("fsnap %d %s %d", g, p.tok(), m.Counter)
 				}
 			}
 			stats["fb_single_ids"]++
@@ -426,7 +482,10 @@ func c20fbConc(out *rec.Out, G, N, ngen int, stats map[string]int) {
 		for g := range gens {
 			gens[g] = id.NewFallbackGenerator()
 		}
-		type pn struct{ p, n uint64 }
+		type pn struct {
+			p c20fp
+			n uint64
+		}
 		parts := make([][]pn, G*ngen)
 		var bad int64
 		var wg sync.WaitGroup
@@ -456,11 +515,8 @@ func c20fbConc(out *rec.Out, G, N, ngen int, stats map[string]int) {
 			all = append(all, p...)
 		}
 		slices.SortFunc(all, func(a, b pn) int {
-			if a.p != b.p {
-				if a.p < b.p {
-					return -1
-				}
-				return 1
+			if c := c20fpCmp(a.p, b.p); c != 0 {
+				return c
 			}
 			if a.n != b.n {
 				if a.n < b.n {
@@ -479,7 +535,7 @@ func c20fbConc(out *rec.Out, G, N, ngen int, stats map[string]int) {
 			if i > 0 && all[i] == all[i-1] {
 				dups++
 				if first == "-" {
-					first = fmt.Sprintf("fallback-%s-%d", strconv.FormatUint(all[i].p, 36), all[i].n)
+					first = fmt.Sprintf("fallback-%s-%d", all[i].p.String(), all[i].n)
 				}
 			}
 		}
@@ -500,19 +556,20 @@ func c20fbCreate(out *rec.Out, mode string, n int, stats map[string]int) {
 		if mode == "conc" {
 			G = 16
 		}
-		parts := make([][]uint64, G)
+		parts := make([][]c20fp, G)
 		var wg sync.WaitGroup
+		var bad int64
 		start := make(chan struct{})
 		for w := 0; w < G; w++ {
 			wg.Add(1)
-			parts[w] = make([]uint64, n)
-			go func(dst []uint64) {
+			parts[w] = make([]c20fp, n)
+			go func(dst []c20fp) {
 				defer wg.Done()
 				<-start
 				for i := range dst {
 					p, _, ok := c20fbDecode(id.NewFallbackGenerator().New().String())
 					if !ok {
-						p = 0
+						atomic.AddInt64(&bad, 1)
 					}
 					dst[i] = p
 				}
@@ -520,21 +577,26 @@ func c20fbCreate(out *rec.Out, mode string, n int, stats map[string]int) {
 		}
 		close(start)
 		wg.Wait()
-		all := make([]uint64, 0, G*n)
+		all := make([]c20fp, 0, G*n)
 		for _, p := range parts {
 			all = append(all, p...)
 		}
-		slices.Sort(all)
-		dups, first := 0, "-"
+		slices.SortFunc(all, c20fpCmp)
+		dups, first, sameClock := 0, "-", 0
 		for i := 1; i < len(all); i++ {
+			if all[i].clock == all[i-1].clock {
+				sameClock++ // created within one clock reading (harmless when a serial number separates them)
+			}
 			if all[i] == all[i-1] {
 				dups++
 				if first == "-" {
-					first = "fallback-" + strconv.FormatUint(all[i], 36) + "-1"
+					first = "fallback-" + all[i].String() + "-1"
 				}
 			}
 		}
-		out.Line("stress fbcreate goroutines %d each %d gens %d total %d dups %d first %s", G, n, G*n, len(all), dups, first)
+		out.Line("stress fbcreate goroutines %d each %d gens %d total %d dups %d first %s sameclock %d undecodable %d",
+			G, n, G*n, len(all), dups, first, sameClock, bad)
+		stats["fb_create_same_clock"] += sameClock
 		stats["fb_create_generators"] += len(all)
 		stats["fb_create_same_prefix"] += dups
 	})
